@@ -39,5 +39,6 @@ Separate Extraction
   Subset.pick_script
   Lang.equiv_dfa_expr
   Lang.equiv_wdfa_expr
+  Lang.levels_ok
   (* add new roots above this line *)
   Prelude.pow2.
